@@ -4,6 +4,7 @@ Require Import List ZArith Ascii Bool.
 Import ListNotations.
 Require Import LV.Files.NumFmtModel LV.Files.NumFmtProofs LV.Files.NpdScan LV.Files.NpdScanProofs
                LV.Files.SaveModel LV.Files.SaveProofs.
+Require LV.Files.TsTok LV.Files.TsParse LV.Files.TsSpec LV.Files.SaveEmit LV.Files.SaveEmitProofs LV.Files.SaveEmitExamples.
 Open Scope Z_scope.
 
 (* eng_value: for every sign, digit string (precision p = its length >= 1), exponent, plus and pad flag,
@@ -79,3 +80,83 @@ Example cksave_instance :
   save (Build_sobj PZ 2 2 3 false true true TS1 false [Build_entry PUNDEF RI]) = true /\
   cksave d32_witness = false.
 Proof. exact cksave_example. Qed.
+
+(* ------------------------------------------------------------------------------------------------
+   load_save_id on the models, Touchstone 2 (session 5).  Files/SaveEmit.v is the printing part of
+   vnadata_save_common as coded (a token stream); TsParse.parse is the Touchstone loader model of C08.
+
+   Number-text layer (trusted base, NOT proved here: Section hypotheses, exercised on every run by
+   tie:print_value and tie:save_emit_model):
+     ptext_word   strtod of the (upper-cased) text print_value wrote for x at precision p is rd p x
+     atext_word   the same for the angle text ("%+*.*f" / "%+a")
+     itext_int    strtol reads back what "%d" wrote, 0 <= n <= INT_MAX
+     rd_sign      a value that is not <= 0 is not read back <= 0
+     num_rt       rd p x = val x at VNADATA_MAX_PRECISION ("%a") or >= 17 digits
+   The arithmetic before printing (cabs, carg, log10, vnadata_convert) is abstract: fields of [env].
+   ------------------------------------------------------------------------------------------------ *)
+Section SaveLoadTouchstone2.
+  Import LV.Files.TsTok LV.Files.TsParse LV.Files.TsSpec LV.Files.SaveEmit LV.Files.SaveEmitProofs.
+  Variable D : Type.
+  Variable E : env D.
+  Variable rd : Z -> D -> xnum.
+  Variable rda : Z -> bool -> D -> xnum.
+  Hypothesis ptext_word : forall p s x, parse_double (up (v_ptext E p s x)) = Some (rd p x).
+  Hypothesis atext_word : forall ap z x, parse_double (up (v_atext E ap z x)) = Some (rda ap z x).
+  Hypothesis itext_int : forall z, 0 <= z <= 2147483647 -> parse_int (v_itext E z) = Some z.
+  Hypothesis rd_sign : forall p x, xle (v_val E x) xq0 = false -> xle (rd p x) xq0 = false.
+  Hypothesis num_rt : forall p x, exact_prec p = true -> rd p x = v_val E x.
+
+  (* load_save_id_touchstone2: for EVERY object with the invariants of a vnadata_t (mobj_wf: z0 vector and
+     data sized by rows / ports, ports <= 46340, frequency count fits int), every file type decision / promote
+     flag / format vector that vnadata_cksave accepts (cksave, SaveModel.v) and that ends as Touchstone 2
+     (set directly, or a ".ts" name promoted because of > 4 ports or unequal z0) - ANY number of ports, ANY
+     number of frequencies, S/Z/Y/H/G, RI / MA / DB, any precisions, with or without [Reference] - whose
+     frequencies read back non-negative and ascending: the loader model accepts the token stream the saver
+     model writes and returns [ts2_loaded]: version 2, the entry's type and format, the port count, every
+     frequency, every reference impedance and every cell as the texts written for them read back (for MA / DB
+     the pair (magnitude or dB, angle) of the abstract cabs / log10 / carg, as written). *)
+  Theorem load_save_id_touchstone2 : forall o ft0 promote fmt,
+    conv_keeps_length D E -> mobj_wf D o -> wf_obj (sobj_of E o ft0 promote fmt) = true ->
+    cksave (sobj_of E o ft0 promote fmt) = true -> final_filetype (sobj_of E o ft0 promote fmt) = TS2 ->
+    freqs_readable D rd o ->
+    exists st e, resolved (sobj_of E o ft0 promote fmt) = [e] /\ save_emit E o ft0 promote fmt = STouchstone st /\
+                 parse st = Ok (ts2_loaded D E rd rda o e).
+  Proof. exact (ts2_load_save_lemma D E rd rda ptext_word atext_word itext_int rd_sign). Qed.
+
+  (* load_save_id_touchstone2_exact: at maximum precision (or >= 17 digits) in rectangular form that object IS
+     the saved one: same frequencies, the real parts of the reference impedances, every cell of the data in the
+     entry's parameter form, exactly (values of binary64 numbers as exact rationals). *)
+  Theorem load_save_id_touchstone2_exact : forall o e,
+    exact_prec (m_fprec o) = true -> exact_prec (m_dprec o) = true -> e_form e = RI ->
+    length (m_z0 o) = m_rows o -> (1 <= m_rows o)%nat ->
+    ts2_loaded D E rd rda o e =
+    mkobj true (ts_ptype (e_par e)) FRI (m_rows o) (map (v_val E) (m_freqs o))
+          (map (fun z => v_val E (fst z)) (firstn (m_rows o) (m_z0 o)))
+          (map (map (exact_cell D E)) (convert_obj E o (e_par e))).
+  Proof. exact (ts2_loaded_exact D E rd rda num_rt). Qed.
+End SaveLoadTouchstone2.
+Print Assumptions load_save_id_touchstone2.
+Print Assumptions load_save_id_touchstone2_exact.
+
+(* load_save_id_touchstone1_lines_partial: for 1..4 ports and RI / MA / DB the tokens the saver writes for one
+   frequency of a Touchstone 1 file (frequency, cells in the 2-port column-major order or row by row, one row per
+   line) are exactly the data lines TsSpec.v1_record_lines prescribes for the record (frequency, cell numbers), i.e.
+   the lines C08's v1_load theorem reads.  PARTIAL: the header run, v1_wf and the un-normalisation identity are
+   missing, so no load theorem for Touchstone 1 yet (model + tie:save_emit_model + tie:roundtrip only). *)
+Theorem load_save_id_touchstone1_lines_partial :
+  forall (D : Type) (E : SaveEmit.env D) (rd : Z -> D -> TsTok.xnum) (rda : Z -> bool -> D -> TsTok.xnum) o n e data i fq,
+  (1 <= n <= 4)%nat -> ri_ma_db (e_form e) = true ->
+  SaveEmit.ts_record E true o n n e data i fq =
+  TsSpec.v1_record_lines n (SaveEmitProofs.rec_of D E rd rda o n n (e_form e) (Nat.eqb n 2) data i fq).
+Proof. exact SaveEmitProofs.ts1_record_lines_lemma. Qed.
+Print Assumptions load_save_id_touchstone1_lines_partial.
+
+(* the premises are met: a 3-port S object with unequal z0, ".ts" name, Touchstone 1 set -> promoted *)
+Example load_save_id_premises_instance :
+  SaveEmitProofs.conv_keeps_length Z SaveEmitExamples.E0 /\ SaveEmitProofs.mobj_wf Z SaveEmitExamples.o3 /\
+  wf_obj (SaveEmit.sobj_of SaveEmitExamples.E0 SaveEmitExamples.o3 TS1 true [Build_entry PUNDEF RI]) = true /\
+  cksave (SaveEmit.sobj_of SaveEmitExamples.E0 SaveEmitExamples.o3 TS1 true [Build_entry PUNDEF RI]) = true /\
+  SaveEmit.final_filetype (SaveEmit.sobj_of SaveEmitExamples.E0 SaveEmitExamples.o3 TS1 true [Build_entry PUNDEF RI]) = TS2 /\
+  SaveEmitProofs.freqs_readable Z (fun _ x => SaveEmitExamples.xz x) SaveEmitExamples.o3 /\
+  SaveEmitProofs.exact_prec (SaveEmit.m_fprec SaveEmitExamples.o3) = true /\ SaveEmitProofs.exact_prec (SaveEmit.m_dprec SaveEmitExamples.o3) = true.
+Proof. exact SaveEmitExamples.premises_instance. Qed.
